@@ -393,7 +393,155 @@ func gen(a Args, out *Out) {
 		emit("burst", h)
 	}
 
+	// 7. ticks that see the same time again (the ticker fired twice within one time unit, or
+	// no time passed): a timer that is already due when the worker accepts it between two
+	// such ticks — zero or negative delay, or a start request that was still queued during
+	// the first tick — must be delivered by the next tick although `now` did not move
+	for k := 0; k < 40*scale; k++ {
+		r := rng.Fork()
+		impl := int64(drv.ImplHeap)
+		if k%4 == 3 {
+			impl = drv.ImplWheel
+		}
+		tt0 := int64(r.PickI64(0, 7, 1000))
+		h := drv.NewHist(impl, startPos(r), tt0)
+		if r.Bool() {
+			h.Start(int64(r.Range(0, 3)))
+			h.HandleAdd()
+		}
+		h.Adv(int64(r.Range(0, 4)))
+		for j := 0; j < r.Range(1, 4); j++ {
+			switch r.Intn(4) {
+			case 0:
+				h.Start(0)
+				h.HandleAdd()
+			case 1:
+				h.Start(-int64(r.Range(1, 9)))
+				h.HandleAdd()
+			case 2:
+				// queued during a tick, accepted after it
+				h.Start(int64(r.Range(0, 2)))
+				h.Pass(int64(r.Range(0, 2)))
+				h.Tick()
+				h.HandleAdd()
+			default:
+				h.Every(int64(r.Range(0, 2)))
+				h.HandleAdd()
+			}
+			h.Tick() // same `now` as the tick before
+			h.Size()
+			if r.Chance(1, 3) {
+				h.Tick()
+			}
+		}
+		h.Adv(1)
+		h.Size()
+		h.Probe()
+		emit("repeat-now", h)
+	}
+
+	// 8. large fan-out through the model: several hundred timers due on one and the same
+	// tick (more than the delivery channel holds) must all be delivered on that tick
+	for k := 0; k < 2*scale && k < 6; k++ {
+		r := rng.Fork()
+		impl := int64(drv.ImplHeap)
+		if k%2 == 1 {
+			impl = drv.ImplWheel
+		}
+		h := drv.NewHist(impl, startPos(r), 0)
+		n := r.Range(560, 700)
+		d := int64(r.Range(1, 40))
+		for i := 0; i < n; i++ {
+			h.Start(d)
+			h.HandleAdd()
+		}
+		if d > 1 {
+			h.Adv(d - 1)
+		}
+		h.Adv(1)
+		h.Size()
+		h.Adv(3)
+		h.Size()
+		emit("fanout", h)
+	}
+	fanout(a, rng.Fork(), out)
+
 	sweeps(a, rng.Fork(), out)
+}
+
+// fanout evaluates in Go: 600..1200 timers due on one tick, with and without a backlog of
+// undelivered runnables already sitting in Chan(); every one of them must be delivered by
+// that tick (exactly once) and Size() must drop to what is left.
+func fanout(a Args, rng *Rng, out *Out) {
+	cases := 4
+	if a.Thorough() {
+		cases = 16
+	}
+	for c := 0; c < cases; c++ {
+		r := rng.Fork()
+		impl := int64(c % 2) // wheel, heap
+		backlog := 0
+		if c%4 >= 2 {
+			backlog = r.Range(20, 100)
+		}
+		n := r.Range(600, 1200)
+		delay := int64(r.Range(2, 50))
+		cur0 := startPos(r)
+		h := drv.NewHist(impl, cur0, 0)
+		d := drv.NewDriver(impl, cur0, 0)
+		t := d.Timer()
+		fail := func(what string) { out.Violation("C05/fanout", what, h.Sx()) }
+		p, _ := Catch(func() {
+			count := map[int64]int{}
+			ord := int64(0)
+			start := func(dl int64) {
+				ord++
+				t.RunAfter(int(dl), &drv.Job{Ord: ord})
+				d.HandleAdd()
+				h.Start(dl)
+				h.HandleAdd()
+			}
+			// backlog: due one tick earlier, left undelivered in the channel
+			for i := 0; i < backlog; i++ {
+				start(delay - 1)
+			}
+			for i := 0; i < n; i++ {
+				start(delay)
+			}
+			d.Pass(delay - 1)
+			h.Adv(delay - 1)
+			d.Tick() // at most `backlog` (<= 100) deliveries: fits the channel, nobody reads
+			d.Pass(1)
+			h.Adv(1)
+			drv.Alive()
+			_, got := drv.TickDrain(d)
+			out.GoChecked += int64(n + backlog)
+			for _, o := range got {
+				count[o]++
+			}
+			missing, twice := 0, 0
+			for o := int64(1); o <= ord; o++ {
+				switch count[o] {
+				case 0:
+					missing++
+				case 1:
+				default:
+					twice++
+				}
+			}
+			h.Size()
+			if missing > 0 || twice > 0 {
+				fail(fmt.Sprintf("%d timers due on one tick (backlog of %d in Chan()): %d not delivered by that tick, %d delivered twice", n, backlog, missing, twice))
+			}
+			if sz := t.Size(); sz != 0 {
+				fail(fmt.Sprintf("Size() = %d after all %d due timers should have been delivered", sz, n+backlog))
+			}
+		})
+		if p {
+			fail("scheduler panicked")
+		}
+		out.Count("fanout-go")
+	}
 }
 
 // ---------------------------------------------------------------------------------------
